@@ -4,6 +4,7 @@ import PygModel.Cache
 import PygModel.Wrap
 import PygModel.WrapHist
 import PygModel.WrapLoops
+import PygModel.Try
 
 namespace Pyg.BindDriver
 open Pyg
@@ -149,6 +150,10 @@ def handle1 (op : String) (args : List Sexp) : Option String := do
           let out ← runMulti s recBody Call.hasArr {} steps
           pure (reply (.ok (.list (out.map fun r => .tuple [resVal r.1, .cell (.int r.2)]))))
       | _ => Option.none
+  | "presets", [] =>
+      -- round k6: the preset wrappers of _decorators.py:249-254 and their fallback values (`tryPresets`, Try.lean), compared with
+      -- the objects `pyg_base.try_nan … try_list` themselves (class, value, repeat, return_value)
+      pure (reply (.ok (.list (tryPresets.map fun nv => .tuple [.cell (.str nv.1), nv.2]))))
   | "mk", [ds] =>
       let ds ← decosOf (← Val.ofSexp ds)
       let fn := mkMany ds { chain := [], base := 0 }
